@@ -220,6 +220,8 @@ def c11_pipeline(rep, tier, seed, jit=False, scale=1.0, synthetic=True):
             rec = recs[rid]
             if clause.startswith("XX:"):
                 raise Machinery(f"MPTrace: {clause} on {json.dumps(rec)[:400]}")
+            if clause.startswith("DRIFT:"):
+                continue
             failures.append((clause, {"clause": clause, "kind": rec["kind"], "mode": rec["mode"], "gets": rec["gets"],
                                       "streams": rec["streams"], "var": rec["var"], "sols": rec["sols"]}))
         rep.add(samples=[{"mode": x["mode"], "streams": x["streams"], "arrival_order": x["gets"], "kind": x["kind"]}
